@@ -48,13 +48,20 @@ func c15Legs(tier, o string) []pairLeg {
 		legs = append(legs, pairLeg{name, t, t})
 	}
 	if o == "SETKEYS:id" {
-		add("K", thin(Keyed(2, false), 60))
+		if tier == "thorough" {
+			add("K@2", thin(Keyed(2, false), 60))
+		} else {
+			add("K", thin(Keyed(2, false), 60))
+		}
 		return legs
 	}
 	if tier == "thorough" {
-		add("U3", U(3))
-		add("A3x6", thin(Arr(3, "6"), 120))
-		add("multikey", c15MultiKey())
+		// histories of length 3 on the quick universes, length 2 on the larger ones
+		add("U3s@3", thin(U(3), 70))
+		add("A3x123@3", Arr(3, "123"))
+		add("multikey@3", c15MultiKey())
+		add("U3@2", U(3))
+		add("A3x6@2", thin(Arr(3, "6"), 120))
 	} else {
 		add("U3", thin(U(3), 70))
 		add("A3x123", Arr(3, "123"))
@@ -174,7 +181,11 @@ func enumC15(tier string, e *engine.Emitter) {
 						continue
 					}
 					e.Do(engine.Case{Kind: "c15det:" + o, Leg: "determinism/" + o, A: at, B: bt})
-					for _, h := range hist {
+					hs := hist
+					if strings.HasSuffix(l.Name, "@2") {
+						hs = c15Histories(2)
+					}
+					for _, h := range hs {
 						e.Do(engine.Case{Kind: kind, Leg: "history/" + l.Name + "/" + o, A: at, B: bt, X: h})
 					}
 				}
